@@ -421,7 +421,9 @@ func genTree(files map[string]*ast.File, mp *pkgInfo, gen string, fx *facts) {
 				}
 				n, err := parseNewMIME(nm.Name, vs.Values[i])
 				if err != nil {
-					fatal("tree.go: %v", err)
+					// not a tree node (some other package-level variable)
+					fx.Notes = append(fx.Notes, "tree.go: skipped variable: "+err.Error())
+					continue
 				}
 				nodes[nm.Name] = n
 			}
